@@ -19,12 +19,14 @@ Inductive hout :=
 | HRaw                                   (* received(None, pdu): placeholder for an intermediate segment, or unusable PDU *)
 | HResp (uid : Z) (log : Z) (cmd status : Z)      (* received(response object, ...) with this log ghost (0 = empty log_id) *)
 | HReceipt (uid : Z) (log : Z)           (* received(DeliverSm receipt object uid, ...) *)
+| HSendError (log : Z)                   (* send_error(original SubmitSm with this log ghost, TimeoutError) *)
 | HCrash (e : exn).
 
 Inductive hevent :=
 | HPut (m : smsg)                                   (* correlator.put(m) after a successful write *)
 | HResponse (r : resp) (mid : Z)                    (* a parsed response PDU; mid = message_id of a submit_sm_resp *)
-| HRcpt (r : receipt) (has_id : bool).              (* a parsed delivery receipt; has_id = an id was found in text or TLV *)
+| HRcpt (r : receipt) (has_id : bool)               (* a parsed delivery receipt; has_id = an id was found in text or TLV *)
+| HExpire (seq : Z).                                (* the sweep finds the stored request with this sequence number too old *)
 
 Definition with_corr (s : hstate) (c : corr) : hstate :=
   {| h_corr := c; h_deliv := h_deliv s; h_next := h_next s; h_thr := h_thr s; h_nonthr := h_nonthr s; h_rlog := h_rlog s |}.
@@ -50,20 +52,21 @@ Definition handle_response (s : hstate) (r : resp) (mid : Z) : hstate * list hou
           let s2 := if mem (rs_status r) throttled_statuses
                     then {| h_corr := c1; h_deliv := h_deliv s; h_next := h_next s; h_thr := h_thr s + 1; h_nonthr := h_nonthr s; h_rlog := rl |}
                     else {| h_corr := c1; h_deliv := h_deliv s; h_next := h_next s; h_thr := h_thr s; h_nonthr := h_nonthr s + 1; h_rlog := rl |} in
-          if (cmd =? SmppCommand_SUBMIT_SM_RESP) && (rs_status r =? SmppCommandStatus_ESME_ROK) then
-            let d1 := put_delivery (h_deliv s2) 0%Q mid m (h_next s2) in
-            let '(c2, oss, code) := get_segmented c1 (rs_seq r) false in
-            let s3 := {| h_corr := c2; h_deliv := d1; h_next := h_next s2 + 1; h_thr := h_thr s2; h_nonthr := h_nonthr s2; h_rlog := rl |} in
-            match oss with
-            | Some ss =>
-              if code =? STATUS_SENDING then (s3, [HRaw])
-              else match ss_last_resp ss with
-                   | Some lr => (s3, [HResp (rs_uid lr) (match dget (rs_uid lr) rl with Some l => l | None => 0 end) (rs_cmd lr) (rs_status lr)])
-                   | None => (s3, [HResp (rs_uid r) (sm_log m) cmd (rs_status r)])
-                   end
-            | None => (s3, [HResp (rs_uid r) (sm_log m) cmd (rs_status r)])
-            end
-          else (s2, [HResp (rs_uid r) (sm_log m) cmd (rs_status r)])
+          let ok := (cmd =? SmppCommand_SUBMIT_SM_RESP) && (rs_status r =? SmppCommandStatus_ESME_ROK) in
+          let d1 := if ok then put_delivery (h_deliv s2) 0%Q mid m (h_next s2) else h_deliv s2 in
+          (* the segmentation check is made for every response to a SubmitSm, accepted or not *)
+          let '(c2, oss, code) := get_segmented c1 (rs_seq r) false in
+          let s3 := {| h_corr := c2; h_deliv := d1; h_next := (if ok then h_next s2 + 1 else h_next s2); h_thr := h_thr s2; h_nonthr := h_nonthr s2; h_rlog := rl |} in
+          match oss with
+          | Some ss =>
+            if code =? STATUS_SENDING then (s3, [HRaw])
+            else if code =? STATUS_EXPIRED then (s3, [HSendError (sm_log (ss_orig ss)); HRaw])
+            else match ss_last_resp ss with
+                 | Some lr => (s3, [HResp (rs_uid lr) (match dget (rs_uid lr) rl with Some l => l | None => 0 end) (rs_cmd lr) (rs_status lr)])
+                 | None => (s3, [HResp (rs_uid r) (sm_log m) cmd (rs_status r)])
+                 end
+          | None => (s3, [HResp (rs_uid r) (sm_log m) cmd (rs_status r)])
+          end
         else (s1, [HResp (rs_uid r) 0 cmd (rs_status r)])
       end
     end.
@@ -95,6 +98,15 @@ Definition hstep (s : hstate) (ev : hevent) : hstate * list hout :=
                   h_thr := h_thr s; h_nonthr := h_nonthr s; h_rlog := h_rlog s |}, [])
   | HResponse r mid => handle_response s r mid
   | HRcpt r has_id => handle_receipt s r has_id
+  | HExpire sq =>
+    (* _remove_expired: del self._store[key]; await self.expired(message) *)
+    match dget sq (c_store (h_corr s)) with
+    | None => (s, [])
+    | Some e =>
+      let c1 := with_store (h_corr s) (ddel sq (c_store (h_corr s))) in
+      let '(c2, call) := expired c1 (e_msg e) in
+      (with_corr s c2, match call with Some m => [HSendError (sm_log m)] | None => [] end)
+    end
   end.
 
 Fixpoint hrun (s : hstate) (evs : list hevent) : hstate * list hout :=
@@ -107,6 +119,7 @@ Definition ser_hout (o : hout) : list Z :=
   match o with
   | HRaw => [0]
   | HResp uid log cmd st => [1; uid; log; cmd; st]
+  | HSendError log => [4; log]
   | HReceipt uid log => [2; uid; log]
   | HCrash e => [3; e]
   end.
